@@ -330,14 +330,73 @@ def run_case(case, ctx):
         how = case.get("how", "id")
         p2 = _s.Project(d)
         job = p2.open_job(id=old_id) if how == "id" else next(iter(p2))
+        cl = ["rekey_then_reopen_by_id"]
+        transient = case.get("transient")
+        if transient:
+            # the state point file is momentarily missing / half written when the handle first looks at it
+            # (another process is re-creating it); the caller retries on the same handle once it is back:
+            # whatever the handle then reports must hash to its id
+            fn_sp = os.path.join(d, "workspace", old_id, "signac_statepoint.json")
+            good = open(fn_sp, "rb").read()
+            if transient == "missing":
+                os.rename(fn_sp, fn_sp + ".away")
+            else:
+                with open(fn_sp, "wb") as f:
+                    f.write(good[: max(1, len(good) // 2)])
+            first = None
+            try:
+                first = job.statepoint()
+            except Exception:
+                pass
+            if first is not None and oracle.job_id(first) != job.id:
+                mms.append(Mismatch("handle_id_ne_hash", f"state point file of {sp!r} {transient}: statepoint() returned {first!r} for id {job.id[:8]}"))
+            if transient == "missing":
+                os.rename(fn_sp + ".away", fn_sp)
+            else:
+                with open(fn_sp, "wb") as f:
+                    f.write(good)
+            cl.append("retry_after_transient_failure")
+            for what, get in (("statepoint()", lambda: job.statepoint()), ("sp()", lambda: job.sp()), ("cached_statepoint", lambda: dict(job.cached_statepoint))):
+                try:
+                    v = get()
+                except Exception:
+                    continue
+                if oracle.job_id(v) != job.id:
+                    mms.append(Mismatch("handle_id_ne_hash", f"retry on the same handle after the state point file of {sp!r} was {transient} and came back: {what} = {v!r} hashes to {oracle.job_id(v)[:8]}, id is {job.id[:8]}"))
         if case.get("touch"):
             job.statepoint()
+        if case.get("peek"):
+            # the read-only view and repr() are looked at before the edits (as groupby / to_dataframe do)
+            dict(job.cached_statepoint)
+            repr(job)
+            cl.append("view_read_before_edit")
         cur = json.loads(json.dumps(sp))
-        for k, v in edits:
-            job.sp[k] = v
+        for e in edits:
+            if not isinstance(e, (list, tuple)) or len(e) < 2 or not isinstance(e[0], str):
+                continue
+            k, v = e[0], e[1]
+            route = e[2] if len(e) > 2 and e[2] in ("setitem", "update_statepoint", "assign") else "setitem"
+            try:
+                if route == "update_statepoint":
+                    job.update_statepoint({k: v}, overwrite=True)
+                elif route == "assign":
+                    job.statepoint = dict(cur, **{k: v})
+                else:
+                    job.sp[k] = v
+            except Exception as exc:
+                mms.append(Mismatch("unexpected_exception", f"state point edit {k!r}={v!r} via {route} on {sp!r} raised {type(exc).__name__}: {exc}"))
+                break
             cur[k] = v
-            if job.id != oracle.job_id(cur):
+            if route != "setitem":
+                # whole-state-point routes keep ==-equal old values (1 vs 1.0) -- C03/C04's known finding; here only
+                # the handle's own consistency is asserted, so follow what the handle says
+                cur = oracle.plain(job.statepoint())
+            if route == "setitem" and job.id != oracle.job_id(cur):
                 mms.append(Mismatch("id_after_edit", f"after sp[{k!r}]={v!r} on {sp!r}: id {job.id}, expected {oracle.job_id(cur)}"))
+            # whatever route: what the editing handle reports must hash to the id it reports
+            for what, got in (("statepoint()", job.statepoint()), ("cached_statepoint", dict(job.cached_statepoint))):
+                if oracle.job_id(got) != job.id:
+                    mms.append(Mismatch("handle_id_ne_hash", f"after {k!r}={v!r} via {route} on {sp!r}: the editing handle has id {job.id[:8]} but its {what} = {got!r} hashes to {oracle.job_id(got)[:8]}"))
         seen = {old_id, job.id}
         for jid in sorted(seen):
             for proj in (p2, _s.Project(d)):
@@ -350,7 +409,7 @@ def run_case(case, ctx):
                 for what, v in (("statepoint()", got), ("cached_statepoint", cached)):
                     if oracle.job_id(v) != jid or h.id != jid:
                         mms.append(Mismatch("reopened_id_ne_hash", f"open_job(id={jid[:8]}) after editing {sp!r} with {edits!r}: {what} = {v!r} hashes to {oracle.job_id(v)[:8]}"))
-        return {"mismatches": mms, "classes": ["rekey_then_reopen_by_id"], "nontrivial": bool(edits)}
+        return {"mismatches": mms, "classes": cl, "nontrivial": bool(edits)}
     if kind == "bulk_cache":
         # many jobs: the persistent cache is filled in chunks; every id handed out in a later session must
         # still be the hash of the state point it comes with
@@ -506,11 +565,14 @@ def run(ctx):
     hist_st = st.fixed_dictionaries({
         "kind": st.just("rekey_cache"),
         "sp": gen.small_statepoints(allow_bool_int_mix=True),
-        "edits": st.lists(st.tuples(st.sampled_from(["a", "b", "zz"]), st.sampled_from([0, 1, 1.0, True, "1", None, [1, 2]])), min_size=1, max_size=3),
+        "edits": st.lists(st.tuples(st.sampled_from(["a", "b", "zz"]), st.sampled_from([0, 1, 1.0, True, "1", None, [1, 2]]),
+                                    st.sampled_from(["setitem", "setitem", "update_statepoint", "assign"])), min_size=1, max_size=3),
         "how": st.sampled_from(["id", "iter"]),
         "touch": st.booleans(),
+        "peek": st.booleans(),
+        "transient": st.sampled_from([None, None, "missing", "torn"]),
     })
-    drive(ctx, hist_st, 60 if ctx.tier == "quick" else 600, ctx.apply)
+    drive(ctx, hist_st, 100 if ctx.tier == "quick" else 800, ctx.apply)
 
     # cross-process batches
     nb = 1 if ctx.tier == "quick" else 3
